@@ -184,6 +184,18 @@ func kf26Scripts() []string {
 		"h = {\"k\": {\"b\": 1, \"a\": 2, \"c\": 3}, \"k\": {\"c\": 3, \"b\": 1, \"a\": 1}}; return h[\"k\"][\"a\"];"}
 }
 
+// KF-36 (repaired): pairs of a hash literal that PRINT alike (key and value) but are different code - the printed
+// form of a `return` shows only the first token of its value - were compiled in map-iteration order: the first
+// `return` reached decided the result.  The written order now breaks the tie.
+func kf36Scripts() []string {
+	return []string{"h = {\"k\": if (true) { return 1+2; }, \"k\": if (true) { return 1+3; }}; return 0;",
+		"h = {\"k\": if (true) { return 1+3; }, \"k\": if (true) { return 1+2; }}; return 0;",
+		"h = {if (true) { return 5*2; }: 1, if (true) { return 5*3; }: 1}; return 0;",
+		"h = {\"k\": if (Count > 1000000) { return 1-1; }, \"k\": if (true) { return 2-1; }, \"k\": if (true) { return 3-1; }}; return 0;",
+		"function f() { h = {\"a\": if (true) { return \"x\" + \"y\"; }, \"a\": if (true) { return \"x\" + \"z\"; }}; return h; } return f();",
+		"h = {1: if (true) { return [1, 2][0]; }, 1: if (true) { return [3, 4][0]; }, 1: if (true) { return [5, 6][0]; }, 1: if (true) { return [7, 8][0]; }}; return 0;"}
+}
+
 func genCtlKnown(stream string, seed uint64) []GenCase {
 	r := NewRng(seed)
 	var out []GenCase
@@ -217,6 +229,26 @@ func genDetKnown(stream string, seed uint64, replicas int) []GenCase {
 				Runs: []Run{{Obj: o, Polls: defaultPolls}, {Obj: o, Polls: defaultPolls}}}
 			id++
 			out = append(out, GenCase{Case: c, Stream: stream, NonTrivial: k == 0, Pair: fmt.Sprintf("detk-%d", i), Role: "replica", IgnoreKeys: map[string]bool{"d": true}})
+		}
+	}
+	for i, s := range kf36Scripts() {
+		o := stdObject(r)
+		for k := 0; k < replicas; k++ {
+			c := Case{ID: fmt.Sprintf("%s-%d", stream, id), Script: s, Opt: i%2 == 0, Fns: []HostFn{recFn()}, Show: []string{"code", "dump"}, Tags: []string{"regress:KF-36"},
+				Runs: []Run{{Obj: o, Polls: defaultPolls}, {Obj: o, Polls: defaultPolls}}}
+			id++
+			out = append(out, GenCase{Case: c, Stream: stream, NonTrivial: k == 0, Pair: fmt.Sprintf("detk36-%d", i), Role: "replica", IgnoreKeys: map[string]bool{"d": true}})
+		}
+	}
+	// KF-37 (repaired): with two functions over the size limit, the one named in Prepare's error followed map order
+	{
+		body := strings.Repeat("x = 1; ", 9400) // 7 bytes each: 65800 bytes of code
+		s := "function zeta() { " + body + "} function alpha() { " + body + "} function mid() { " + body + "} return 1;"
+		for k := 0; k < replicas; k++ {
+			c := Case{ID: fmt.Sprintf("%s-%d", stream, id), Script: s, Opt: false, Show: []string{"errtext"}, Tags: []string{"regress:KF-37"},
+				Runs: []Run{{Obj: stdObject(r), Polls: defaultPolls}}}
+			id++
+			out = append(out, GenCase{Case: c, Stream: stream, NonTrivial: k == 0, Pair: "detk37", Role: "replica", ModelFree: true})
 		}
 	}
 	return out
